@@ -154,6 +154,37 @@ def run_check(pid: str, tier: str, fn, seed: int = 0, replay: str | None = None)
     return 0
 
 
+ASSUMPTIONS = {
+    "C01": ["children of a combinator satisfy the property being proved for the parent (structural induction over bijection expressions)",
+            "jnp.searchsorted returns indices in [0, n]; knot tables are strictly increasing (C11.knots)",
+            "floating-point round-trip error and convergence of the iterative inverses are not decided"],
+    "C02": ["children's log-dets are rank-0 and satisfy the sign relation (induction)",
+            "matrix determinant lemma; det of a triangular matrix is the product of its diagonal",
+            "identities log exp a = a, log sigmoid a = -softplus(-a), log(1 - tanh^2 a) = 2(log 2 - a - softplus(-2a))"],
+    "C03": ["C01/C02 hold for the bijection used; numerical equality of the paths follows from the wiring given those"],
+    "C04": ["only surjectivity typing is decided: the integral of exp(log_prob) and sampler goodness-of-fit are not decidable statically"],
+    "C05": ["jax.scipy.stats logpdfs and jax.random samplers implement the textbook families",
+            "cholesky returns the lower factor; broadcasting / dtype casts are value-preserving"],
+    "C06": ["documented contract of jnp.vectorize (gufunc signature, excluded arguments, NumPy broadcasting)",
+            "jr.split(key, n) returns n statistically independent keys"],
+    "C07": ["jnp primitives compute their namesakes; equations 4-8 of Durkan et al. 2019 as transcribed in the rule"],
+    "C08": ["documented semantics of jnp.concatenate / jnp.stack / jnp.split / eqx.filter_vmap / lax.scan"],
+    "C09": ["eqx.nn.MLP has depth+1 linear layers; eqx.tree_at replaces exactly the selected leaf",
+            "Where / WeightNormalization / BijectionReparam are applied at every unwrap (C12.entry)"],
+    "C10": ["func is continuous and strictly increasing; real arithmetic (floating-point resolution not modelled)",
+            "termination of the adaptation loop for a given func is not decided"],
+    "C11": ["softplus(x) > 0 and exp(x) > 0 for every real x; float32 under/overflow at the edge of the box not modelled",
+            "interval[1] > interval[0] for the spline (not validated by the constructor)"],
+    "C12": ["equinox filter_vmap / partition / combine / tree_at semantics; lax.stop_gradient blocks gradients"],
+    "C13": ["equinox calls __init_subclass__ and __check_init__ as documented"],
+    "C14": ["a Python branch / concretisation on a traced value raises under jit; static projections (.shape, len, is None) are trace-time constants"],
+    "C15": ["jr.permutation(key, a) applies the same permutation to arrays of equal leading length for equal keys; reshape / zip contracts"],
+    "C16": ["the summary of step (C16.step) is the only property of step the loops rely on"],
+    "C17": ["dist.log_prob / sample / sample_and_log_prob satisfy C03 / C06"],
+    "C18": ["total primitives (tanh, softplus, exp, abs, sign, clip, arithmetic) have finite values and derivatives at finite inputs of moderate size",
+            "overflow at large magnitudes and user-supplied transformers are not decided"],
+}
+
 LEVELS = {}  # pid -> level category, filled from MANIFEST at import time
 
 
@@ -220,7 +251,7 @@ def write_evidence(rep: Report, wall: float, seed: int, n_viol: int, n_und: int)
     ev = {
         "property_id": rep.pid, "tier": rep.tier, "seed": int(seed), "level": level,
         "coverage": cov,
-        "assumptions": rep.assumptions or ["jax / equinox primitives behave as documented"],
+        "assumptions": (rep.assumptions or []) + ASSUMPTIONS.get(rep.pid, []) + ["jax / equinox primitives behave as documented"],
         "wall_s": round(wall, 3),
         "violations": n_viol,
         "undecided": n_und,
